@@ -8,6 +8,7 @@ package main
 
 import (
 	"context"
+	"errors"
 	"fmt"
 	"io"
 	"net/http"
@@ -135,15 +136,31 @@ func (m *manyDescCollector) Describe(ch chan<- *prometheus.Desc) {
 }
 func (m *manyDescCollector) Collect(ch chan<- prometheus.Metric) {}
 
+// slowDescCollector: Describe takes a while, so that concurrent Register calls overlap.
+type slowDescCollector struct{ d *prometheus.Desc }
+
+func (c *slowDescCollector) Describe(ch chan<- *prometheus.Desc) {
+	time.Sleep(200 * time.Microsecond)
+	ch <- c.d
+	runtime.Gosched()
+}
+func (c *slowDescCollector) Collect(ch chan<- prometheus.Metric) {
+	ch <- prometheus.MustNewConstMetric(c.d, prometheus.GaugeValue, 1)
+}
+
 // lockedTG is a TransactionalGatherer whose state is protected by a read lock held from Gather until done.
 type lockedTG struct {
 	mu   sync.RWMutex
 	gen  int
 	fams int
+	fail bool // Gather reports an error (and no families); done must still be called
 }
 
 func (l *lockedTG) Gather() ([]*dto.MetricFamily, func(), error) {
 	l.mu.RLock()
+	if l.fail {
+		return nil, l.mu.RUnlock, errors.New("transactional gatherer fails")
+	}
 	var out []*dto.MetricFamily
 	for i := 0; i < l.fams; i++ {
 		n := fmt.Sprintf("locked_%d", i)
@@ -255,10 +272,65 @@ func runChild(c *cli.Ctx) error {
 				raceViolations++
 			}
 		}
-		defer func() {}()
+		// --- registrations racing each other: several distinct collectors that share one descriptor and whose Describe
+		// is slow are registered at the same time; exactly one may win, and the registry must stay gatherable
+		for round := 0; round < 10; round++ {
+			d := prometheus.NewDesc(fmt.Sprintf("shared_%d", round), "h", nil, nil)
+			var wgS sync.WaitGroup
+			gate := make(chan struct{})
+			var won int64
+			for g := 0; g < 4; g++ {
+				wgS.Add(1)
+				go func() {
+					defer wgS.Done()
+					<-gate
+					if reg.Register(&slowDescCollector{d: d}) == nil {
+						atomic.AddInt64(&won, 1)
+					}
+				}()
+			}
+			close(gate)
+			wgS.Wait()
+			atomic.AddInt64(&totalOps, 4)
+			if won != 1 {
+				raceViolations++
+			}
+			if _, err := reg.Gather(); err != nil {
+				raceViolations++
+			}
+		}
+		// --- ToFloat64 on a vector with three or more children: the documented panic, never a hang; the vector stays usable
+		{
+			tv := prometheus.NewCounterVec(prometheus.CounterOpts{Name: "tf"}, []string{"a"})
+			for _, a := range []string{"x", "y", "z"} {
+				tv.WithLabelValues(a).Inc()
+			}
+			doneT := make(chan bool, 1)
+			go func() {
+				defer func() { doneT <- recover() != nil }()
+				testutil.ToFloat64(tv)
+			}()
+			select {
+			case panicked := <-doneT:
+				if !panicked {
+					raceViolations++
+				}
+			case <-time.After(5 * time.Second):
+				atomic.AddInt64(&panics, 1)
+				panicMsg.Store("testutil.ToFloat64 on a vector with 3 children neither returned nor panicked (deadlock)")
+			}
+			doneW := make(chan struct{})
+			go func() { tv.WithLabelValues("new").Inc(); close(doneW) }()
+			select {
+			case <-doneW:
+			case <-time.After(5 * time.Second):
+				atomic.AddInt64(&panics, 1)
+				panicMsg.Store("WithLabelValues blocks forever after testutil.ToFloat64 on the same vector")
+			}
+		}
 		if raceViolations > 0 {
 			atomic.AddInt64(&panics, 1)
-			panicMsg.Store(fmt.Sprintf("%d creation-race rounds lost an update or made Gather fail (duplicate children)", raceViolations))
+			panicMsg.Store(fmt.Sprintf("%d race rounds violated their invariant (lost update / duplicate children / two winners of one descriptor / Gather failing / missing documented panic)", raceViolations))
 		}
 		cv.Reset()
 		hv.Reset()
@@ -431,8 +503,8 @@ func runChild(c *cli.Ctx) error {
 		// write lock. A done callback that is dropped leaves the lock held: the writer blocks (watchdog) and the
 		// final TryLock fails.
 		{
-			tgs := []*lockedTG{{fams: 0}, {fams: 2}}
-			multi := prometheus.NewMultiTRegistry(prometheus.ToTransactionalGatherer(reg), tgs[0], tgs[1])
+			tgs := []*lockedTG{{fams: 0}, {fams: 2}, {fail: true}}
+			multi := prometheus.NewMultiTRegistry(prometheus.ToTransactionalGatherer(reg), tgs[0], tgs[1], tgs[2])
 			th := promhttp.HandlerForTransactional(multi, promhttp.HandlerOpts{})
 			var wgT sync.WaitGroup
 			for g := 0; g < 4; g++ {
